@@ -54,6 +54,8 @@ type nodeView struct {
 	vb      string
 	pr      int
 	cr      int
+	lr      int
+	polkas  map[int]string // round -> recorded +2/3 prevote majority
 }
 
 func field(line, k string) string {
@@ -97,6 +99,20 @@ func parseNode(s string) (int, nodeView, bool) {
 	v.vb = field(s, "vb")
 	v.pr, _ = strconv.Atoi(field(s, "pr"))
 	v.cr, _ = strconv.Atoi(field(s, "cr"))
+	v.lr, _ = strconv.Atoi(field(s, "lr"))
+	v.polkas = map[int]string{}
+	for _, e := range strings.Split(field(s, "hv"), ",") {
+		// "<round>:P<sum>/<maj>/<buckets>:C…"
+		parts := strings.SplitN(e, ":", 3)
+		if len(parts) < 2 || !strings.HasPrefix(parts[1], "P") {
+			continue
+		}
+		q, err := strconv.Atoi(parts[0])
+		f := strings.Split(parts[1], "/")
+		if err == nil && len(f) >= 2 && f[1] != "-" {
+			v.polkas[q] = f[1]
+		}
+	}
 	return id, v, true
 }
 
@@ -283,7 +299,22 @@ func oracle(c core.Case, out []string) []core.Finding {
 			fmt.Sprintf("every message is delivered and no timeout is pending, yet %d correct node(s) have not decided (%s); decided: %s", undecided, strings.Join(desc, "; "), strings.Join(dec, ",")))
 	default:
 		bump(histEnd, "inconclusive")
-		if bound >= 0 && endR > bound+1 {
+		// a correct node still locked on a block although it holds a polka for something else from a
+		// later round that it has reached: the unlock rule was never re-evaluated
+		stale := ""
+		for id, v := range views {
+			if v.decided == "" && !v.halted && v.lb != "-" && v.lb != "" {
+				for q, val := range v.polkas {
+					if v.lr < q && q <= v.r && val != v.lb {
+						stale = fmt.Sprintf("node %d is locked on block %s since round %d although it holds +2/3 prevotes for %s from round %d (it is in round %d)", id, v.lb, v.lr, val, q, v.r)
+					}
+				}
+			}
+		}
+		if bound >= 0 && endR > bound+1 && stale != "" {
+			add("sync.stale-lock-never-released",
+				fmt.Sprintf("all messages delivered from round %d on, correct nodes reached round %d without deciding (bound was round %d): %s", syncR, endR, bound, stale))
+		} else if bound >= 0 && endR > bound+1 {
 			add("sync.decision-later-than-bound",
 				fmt.Sprintf("all messages delivered from round %d on, correct nodes reached round %d without all deciding; bound was round %d", syncR, endR, bound))
 		}
@@ -311,6 +342,8 @@ func main() {
 			c = genEquivPrecommitPastClaim(r)
 		case "unlucky":
 			c = genUnluckyOrder(r)
+		case "stale":
+			c = genStaleLock(r)
 		default:
 			c = genRandom(r, 80, f[0] == "hostile")
 		}
@@ -336,6 +369,7 @@ func main() {
 				emit(genCommitForeignProposal(r))
 				emit(genEquivPrecommitPastClaim(r))
 				emit(genUnluckyOrder(r))
+				emit(genStaleLock(r))
 				emit(genRandom(r, 60, false))
 				emit(genRandom(r, 160, false))
 				emit(genRandom(r, 60, true))
@@ -351,7 +385,7 @@ func main() {
 			}
 			return false
 		},
-		Rule: "n real consensus.State nodes in one process (one per correct validator; kvstore app, MockPV signer, in-memory stores, nil WAL, recording ticker with the durations the node asked for; 3..7 validators from 7 power configurations plus skewed validator sets reached through validator updates; faulty validators with < 1/3 of the power, possibly none), driven synchronously through handleMsg/handleTimeout. Every case = adversarial asynchronous prefix, the synchrony point, a synchronous suffix (closure = every logged message and every majority claim to every correct node until nothing changes; then one eligible timeout — net closed, no other timer due more than skew earlier — or a move of a faulty validator; repeat). Prefixes: random (partitions re-drawn, per-message delays and re-deliveries, timeouts at any time, faulty validators equivocating in votes and proposals, voting for future rounds, withholding, bogus majority claims) and scripted: two correct nodes locked on different blocks from different rounds; a node that sees the commit (+2/3 precommits) without the block, optionally pulled out of the commit step by +2/3 prevotes of the next round; most of the power walking through rounds by timeouts while one node is cut off and then skips them at once (skewed sets); a node in the commit step without proposal receiving an equivocating proposer's proposal for another block before the committed block's parts; locks from different rounds with the releasing polka completed only after the locked node has moved to a later round (faulty validator silent afterwards); a faulty validator's equivocated round-0 precommit that the remaining nodes, already in round 1, can admit only through the decider's majority claim for the past round; a suffix with an unlucky delivery order every round (one node gets precommits before prevotes, or all votes before the proposal and its block, while a faulty validator helps the others to their polka and withholds its own block precommit so that every correct precommit is needed). Non-trivial = the case reached the synchrony point; distinct by hash of the op list",
+		Rule: "n real consensus.State nodes in one process (one per correct validator; kvstore app, MockPV signer, in-memory stores, nil WAL, recording ticker with the durations the node asked for; 3..7 validators from 7 power configurations plus skewed validator sets reached through validator updates; faulty validators with < 1/3 of the power, possibly none), driven synchronously through handleMsg/handleTimeout. Every case = adversarial asynchronous prefix, the synchrony point, a synchronous suffix (closure = every logged message and every majority claim to every correct node until nothing changes; then one eligible timeout — net closed, no other timer due more than skew earlier — or a move of a faulty validator; repeat). Prefixes: random (partitions re-drawn, per-message delays and re-deliveries, timeouts at any time, faulty validators equivocating in votes and proposals, voting for future rounds, withholding, bogus majority claims) and scripted: two correct nodes locked on different blocks from different rounds; a node that sees the commit (+2/3 precommits) without the block, optionally pulled out of the commit step by +2/3 prevotes of the next round; most of the power walking through rounds by timeouts while one node is cut off and then skips them at once (skewed sets); a node in the commit step without proposal receiving an equivocating proposer's proposal for another block before the committed block's parts; locks from different rounds with the releasing polka completed only after the locked node has moved to a later round (faulty validator silent afterwards); a faulty validator's equivocated round-0 precommit that the remaining nodes, already in round 1, can admit only through the decider's majority claim for the past round; a suffix with an unlucky delivery order every round (one node gets precommits before prevotes, or all votes before the proposal and its block, while a faulty validator helps the others to their polka and withholds its own block precommit so that every correct precommit is needed); a lock that outlives its releasing polka (the polka is completed at the locked node while it is still in an earlier round, then the node skips past that round). Non-trivial = the case reached the synchrony point; distinct by hash of the op list",
 		Assumptions: []string{
 			"one height; a block id stands for (hash, part-set header) of a one-part block; block i is what createProposalBlock of validator i yields (checked at node construction); signatures ideal: correct nodes' messages are the objects they really signed, faulty validators' messages are signed by the harness with their keys",
 			"idealised gossip as in the property's quantifier: closure hands every logged message (proposals, block parts, votes of all rounds) and every +2/3 majority claim of every correct node to every correct node, repeatedly until no node changes; votes arrive from the peer of their signer (2 catch-up rounds per peer apply)",
